@@ -25,3 +25,24 @@ def fn1(x):
 def gn(x):
     sys.audit("vf.body", "gn", x)
     return "computed-gn-%s" % x
+
+
+def _call_fn(x):
+    try:
+        return fn(x)
+    except RuntimeError:
+        return "refused"
+
+
+@m.memento_function(cluster="vfo", version="1", dependencies=[fn])
+def outer_other(x):
+    """Lives in another cluster (local runner) and calls fn, which lives in cluster vfc."""
+    sys.audit("vf.body", "outer_other", x)
+    return ["outer", _call_fn(x)]
+
+
+@m.memento_function(cluster="vfc", version="1", dependencies=[fn])
+def outer_same(x):
+    """Same cluster as fn; run through force_local() when the cluster's runner refuses."""
+    sys.audit("vf.body", "outer_same", x)
+    return ["outer", _call_fn(x)]
